@@ -281,6 +281,15 @@ func (r *Route) goodRegexString(n, v string) {
 	}
 }
 
+// check the compiled regex: every capturing group must belong to a path var.
+// goodRegexString() only looks at the first '(' of a var regex, and a literal '(' in the
+// path is not checked at all; an extra group would shift (and overflow) the matched values.
+func (r *Route) goodRegexGroups() {
+	if n := r.regex.NumSubexp(); n != len(r.matches) {
+		goutil.Panicf("invalid route path '%s', dont allow capturing groups (found %d groups for %d path vars)", r.path, n, len(r.matches))
+	}
+}
+
 // check start string and match a regex route
 func (r *Route) match(path string) (ps Params, ok bool) {
 	// check start string
